@@ -1,0 +1,43 @@
+//go:build verif
+
+// Verification hooks for property C10 (read-only): compiled only with -tags verif.
+
+package obfs4
+
+import (
+	"net"
+
+	"gitlab.com/yawning/obfs4.git/transports/obfs4/framing"
+)
+
+// VerifC10Buffered reports the number of bytes the connection currently holds in its
+// receive buffers (receiveBuffer + receiveDecodedBuffer).  ok is false when c is not
+// an obfs4 connection.  Must only be called while no Read is in progress.
+func VerifC10Buffered(c net.Conn) (n int, ok bool) {
+	raw, dec, ok := VerifC10BufferedParts(c)
+	return raw + dec, ok
+}
+
+// VerifC10BufferedParts is VerifC10Buffered with the two buffers reported separately.
+func VerifC10BufferedParts(c net.Conn) (raw, decoded int, ok bool) {
+	oc, ok := c.(*obfs4Conn)
+	if !ok {
+		return 0, 0, false
+	}
+	return oc.receiveBuffer.Len(), oc.receiveDecodedBuffer.Len(), true
+}
+
+// VerifC10Encoder returns the frame encoder of an established connection, so that a
+// test can act as a key-holding peer that seals arbitrary (malformed) packet plaintexts.
+func VerifC10Encoder(c net.Conn) *framing.Encoder {
+	oc, ok := c.(*obfs4Conn)
+	if !ok {
+		return nil
+	}
+	return oc.encoder
+}
+
+// VerifC10FindMarkMac re-exports findMarkMac.
+func VerifC10FindMarkMac(mark, buf []byte, startPos, maxPos int, fromTail bool) int {
+	return findMarkMac(mark, buf, startPos, maxPos, fromTail)
+}
